@@ -48,6 +48,7 @@ type Result struct {
 	Outcomes   map[string]int64 `json:"outcomes,omitempty"`
 	Violations []Viol           `json:"violations,omitempty"`
 	Children   [][]int          `json:"children,omitempty"`
+	ChildKeys  []string         `json:"child_keys,omitempty"` // BFS: canonical state key per child, de-duplicated by the coordinator
 	Samples    []any            `json:"samples,omitempty"`
 	Capped     bool             `json:"capped,omitempty"`
 	Err        string           `json:"err,omitempty"`
@@ -68,6 +69,18 @@ func (r *Result) Outcome(sig string) {
 		sig = sig[:100] + "…#" + hex(fnv(sig))
 	}
 	r.Outcomes[sig]++
+}
+
+// Hash128 returns a 128-bit hex digest of s (state keys).
+func Hash128(s string) string {
+	var h1, h2 uint64 = 14695981039346656037, 0x9E3779B97F4A7C15
+	for i := 0; i < len(s); i++ {
+		h1 ^= uint64(s[i])
+		h1 *= 1099511628211
+		h2 = (h2 ^ uint64(s[i])) * 0xff51afd7ed558ccd
+		h2 ^= h2 >> 29
+	}
+	return hex(h1) + hex(h2)
 }
 
 func fnv(s string) uint64 {
@@ -96,6 +109,9 @@ type Check struct {
 	// QuickBudget / ThoroughBudget bound the wall time of the exploration phase.
 	QuickBudget    time.Duration
 	ThoroughBudget time.Duration
+	// BFS marks an explicit-state search: children carry state keys and the
+	// coordinator keeps the global visited set.
+	BFS bool
 	// Finish may add property-specific coverage keys once all results are in.
 	Finish func(tier string, cov map[string]any, totals map[string]int64)
 }
@@ -595,6 +611,7 @@ func coordinate(c *Check, tier string, seed int) int {
 	known := map[string]int{}
 	knownWhat := map[string]string{}
 	capped := false
+	seenKeys := map[string]struct{}{}
 	debug := os.Getenv("VERIF_DEBUG") != ""
 	onResult := func(r *Result) {
 		amu.Lock()
@@ -645,7 +662,14 @@ func coordinate(c *Check, tier string, seed int) int {
 			q.stop = true
 			q.mu.Unlock()
 		}
-		for _, ch := range r.Children {
+		for i, ch := range r.Children {
+			if len(r.ChildKeys) == len(r.Children) {
+				if _, dup := seenKeys[r.ChildKeys[i]]; dup {
+					totals["bfs_duplicate_transitions"]++
+					continue
+				}
+				seenKeys[r.ChildKeys[i]] = struct{}{}
+			}
 			q.push(Job{Scn: r.Job.Scn, Name: r.Job.Name, Prefix: ch})
 		}
 	}
@@ -729,6 +753,10 @@ func coordinate(c *Check, tier string, seed int) int {
 		if !strings.HasPrefix(k, "VIOLATION:") {
 			distinct++
 		}
+	}
+	if len(seenKeys) > 0 {
+		totals["bfs_states"] = int64(len(seenKeys))
+		totals["nodes"] += int64(len(seenKeys))
 	}
 	cov := map[string]any{
 		"states":                        totals["nodes"],
